@@ -275,7 +275,10 @@ pub fn global_parse_int(
         None => interp.intern(""),
     };
     let string = string.as_str().to_string();
-    let radix = args.get(1).map(|v| v.to_number() as i32).unwrap_or(10);
+    let radix = args
+        .get(1)
+        .map(|v| crate::value::to_int32(v.to_number()))
+        .unwrap_or(0);
 
     // Trim whitespace
     let s = string.trim();
@@ -284,7 +287,8 @@ pub fn global_parse_int(
         return Ok(Guarded::unguarded(JsValue::Number(f64::NAN)));
     }
 
-    // Handle radix
+    // Handle radix (0 / missing: 10, or 16 after a 0x prefix)
+    let explicit_radix = radix != 0;
     let radix = if radix == 0 { 10 } else { radix };
     if !(2..=36).contains(&radix) {
         return Ok(Guarded::unguarded(JsValue::Number(f64::NAN)));
@@ -299,34 +303,43 @@ pub fn global_parse_int(
         (false, s)
     };
 
-    // Handle hex prefix for radix 16
-    let s = if radix == 16 {
-        s.strip_prefix("0x")
-            .or_else(|| s.strip_prefix("0X"))
-            .unwrap_or(s)
+    // A 0x prefix selects (or agrees with) radix 16
+    let (radix, s) = if radix == 16 || !explicit_radix {
+        match s.strip_prefix("0x").or_else(|| s.strip_prefix("0X")) {
+            Some(rest) => (16, rest),
+            None => (radix, s),
+        }
     } else {
-        s
+        (radix, s)
     };
 
     // Parse digits until invalid character
-    let mut result: i64 = 0;
+    let mut result: f64 = 0.0;
     let mut found_digit = false;
 
     for c in s.chars() {
         let digit = match c.to_digit(radix as u32) {
-            Some(d) => d as i64,
+            Some(d) => d as f64,
             None => break,
         };
         found_digit = true;
-        result = result * (radix as i64) + digit;
+        result = result * (radix as f64) + digit;
     }
 
     if !found_digit {
         return Ok(Guarded::unguarded(JsValue::Number(f64::NAN)));
     }
 
+    // Decimal digits are converted exactly (the running product rounds at every step)
+    let result = if radix == 10 {
+        let digits: String = s.chars().take_while(|c| c.is_ascii_digit()).collect();
+        digits.parse::<f64>().unwrap_or(result)
+    } else {
+        result
+    };
+
     let result = if negative { -result } else { result };
-    Ok(Guarded::unguarded(JsValue::Number(result as f64)))
+    Ok(Guarded::unguarded(JsValue::Number(result)))
 }
 
 pub fn global_parse_float(
@@ -336,58 +349,67 @@ pub fn global_parse_float(
 ) -> Result<Guarded, JsError> {
     let string = match args.first() {
         Some(v) => interp.to_js_string(v),
-        None => interp.intern(""),
+        None => interp.intern("undefined"),
     };
     let string = string.as_str().to_string();
-    let s = string.trim();
+    let s = string.trim_start();
 
-    if s.is_empty() {
-        return Ok(Guarded::unguarded(JsValue::Number(f64::NAN)));
-    }
-
-    // Find the longest valid float prefix
-    let mut num_str = String::new();
-    let mut has_dot = false;
-    let mut has_exp = false;
-    let mut chars = s.chars().peekable();
-
-    // Handle sign
-    if matches!(chars.peek(), Some('-') | Some('+'))
-        && let Some(c) = chars.next()
+    // The longest prefix that is a StrDecimalLiteral: sign, then `Infinity` or
+    // digits [. digits] [e [sign] digits] with at least one mantissa digit
+    let bytes = s.as_bytes();
+    let mut pos = 0;
+    let mut negative = false;
+    if let Some(&c) = bytes.first()
+        && (c == b'-' || c == b'+')
     {
-        num_str.push(c);
+        negative = c == b'-';
+        pos = 1;
     }
-
-    // Parse digits and decimal point
-    while let Some(&c) = chars.peek() {
-        match c {
-            '0'..='9' => {
-                num_str.push(c);
-                chars.next();
-            }
-            '.' if !has_dot && !has_exp => {
-                has_dot = true;
-                num_str.push(c);
-                chars.next();
-            }
-            'e' | 'E' if !has_exp => {
-                has_exp = true;
-                num_str.push(c);
-                chars.next();
-                // Optional sign after exponent
-                if matches!(chars.peek(), Some('-') | Some('+'))
-                    && let Some(sign) = chars.next()
-                {
-                    num_str.push(sign);
-                }
-            }
-            _ => break,
+    if s.get(pos..).is_some_and(|r| r.starts_with("Infinity")) {
+        let inf = if negative {
+            f64::NEG_INFINITY
+        } else {
+            f64::INFINITY
+        };
+        return Ok(Guarded::unguarded(JsValue::Number(inf)));
+    }
+    let digits = |from: usize| -> usize {
+        let mut k = from;
+        while bytes.get(k).is_some_and(|b| b.is_ascii_digit()) {
+            k += 1;
+        }
+        k
+    };
+    let start = pos;
+    let int_end = digits(pos);
+    let mut end = int_end;
+    let mut mantissa_digits = int_end - pos;
+    if bytes.get(end) == Some(&b'.') {
+        let frac_end = digits(end + 1);
+        mantissa_digits += frac_end - (end + 1);
+        if mantissa_digits > 0 {
+            end = frac_end;
         }
     }
-    match num_str.parse::<f64>() {
-        Ok(n) => Ok(Guarded::unguarded(JsValue::Number(n))),
-        Err(_) => Ok(Guarded::unguarded(JsValue::Number(f64::NAN))),
+    if mantissa_digits == 0 {
+        return Ok(Guarded::unguarded(JsValue::Number(f64::NAN)));
     }
+    if matches!(bytes.get(end), Some(b'e') | Some(b'E')) {
+        let mut k = end + 1;
+        if matches!(bytes.get(k), Some(b'-') | Some(b'+')) {
+            k += 1;
+        }
+        let exp_end = digits(k);
+        if exp_end > k {
+            end = exp_end;
+        }
+    }
+    let magnitude = s
+        .get(start..end)
+        .and_then(|t| t.parse::<f64>().ok())
+        .unwrap_or(f64::NAN);
+    let n = if negative { -magnitude } else { magnitude };
+    Ok(Guarded::unguarded(JsValue::Number(n)))
 }
 
 // Global isNaN - converts argument to number first
